@@ -10,10 +10,13 @@ A case is the history (plain data); run_case replays it without Hypothesis.
 """
 import contextlib
 import copy
+import dataclasses
 import io
 import json
 import os
 import sys
+
+from typing import Optional
 
 from hypothesis import strategies as st
 
@@ -40,6 +43,17 @@ ASSUMPTIONS = [
 FX = "vf.gen.fixtures."
 
 
+@dataclasses.dataclass
+class D9:
+    a: int = 1
+    b: str = "x"
+
+
+class C9:
+    def __init__(self, d: Optional[D9] = None, k: int = 0):
+        self.d, self.k = d, k
+
+
 def build(which):
     from typing import Dict, List, Optional
 
@@ -64,12 +78,35 @@ def build(which):
         sb.add_argument("--y", type=Optional[F.Base], default=None)
         sc.add_subcommand("sa", sa)
         sc.add_subcommand("sb", sb)
+        # a second level below sa (levels are attached in level order), with a config argument of its own
+        deep = ArgumentParser(exit_on_error=False)
+        deep.add_argument("--cfg", action="config")
+        deep.add_argument("--z", type=int, default=0)
+        sa.add_subcommands(required=False, dest="deepcmd").add_subcommand("deep", deep)
+        return p
+    if which == "C":
+        # a parser whose defaults come partly from a default config file (an append key and a class change in it)
+        import tempfile
+
+        path = os.path.join(tempfile.gettempdir(), "vf_c09_defaults.yaml")
+        if not os.path.exists(path):
+            with open(path, "w") as f:
+                f.write("tags+: [c]\nm:\n  class_path: " + FX + "SubB\nn: 5\n")
+        p = ArgumentParser(exit_on_error=False, prog="cfgd", default_config_files=[path])
+        p.add_argument("--cfg", action="config")
+        p.add_argument("--tags", type=List[str], default=["a", "b"])
+        p.add_argument("--n", type=Optional[int], default=None)
+        p.add_argument("--m", type=F.Base, default={"class_path": FX + "SubA", "init_args": {"q": "dq"}})
+        p.add_class_arguments(C9, "c")  # a class group with an Optional[dataclass] parameter
         return p
     p = ArgumentParser(exit_on_error=True, prog="other", env_prefix="OTH", default_env=True)
     p.add_argument("--cfg", action="config")
     p.add_argument("--a", type=str, default="other")
     p.add_argument("--h", type=F.Holder, default=lazy_instance(F.Holder, inner={"class_path": FX + "SubB"}))
     p.add_argument("--m", type=F.Base, default=lazy_instance(F.SubA, q="oq"))
+    from typing import Callable
+
+    p.add_argument("--cb", type=Callable[[int], F.Base])  # (the class help of a Callable skips the positional arguments of the class)
     return p
 
 
@@ -82,12 +119,18 @@ ARGV_A = [["--a=3"], ["--a=x"], ["--a", "5"], ["--b=1"], ["--l=[4, 5]"], ["--l+=
           ["--print_config"], ["--print_config=skip_null"], ["--print_config=skip_default"], ["--print_config=comments"], ["--print_config=bad"],
           ["--help"], ["-h"], ["--m.help"], ["--m.help", "SubB"], ["--m.help=" + FX + "SubReq"], ["--m.help", "zz"], ["--zz"], ["zz"],
           ["sa"], ["sa", "--x=2"], ["sa", "--x=x"], ["sa", "--lx+=u"], ["sa", "--cfg", "{\"x\": 8}"], ["sa", "--cfg", "{\"zz\": 8}"], ["sa", "--print_config"], ["sa", "--help"],
+          ["sa", "deep"], ["sa", "deep", "--z=2"], ["sa", "deep", "--z=x"], ["sa", "deep", "--print_config"], ["sa", "deep", "--print_config=skip_null", "--z=oops"], ["sa", "deep", "--cfg", "{\"z\": 3}"],
+          ["sa", "deep", "--cfg", "{\"zz\": 3}", "--print_config"], ["sa", "deep", "--help"],
           ["sb"], ["sb", "--y=SubA"], ["sb", "--y=" + FX + "SubB", "--y.init_args.f=off"], ["sb", "--y.help", "SubA"], ["sb", "--y=Unrelated"], ["sb", "--y=null"]]
 OBJ_A = [{}, {"a": 5}, {"a": "x"}, {"zz": 1}, {"l": [7]}, {"l+": 8}, {"m": "SubB"}, {"m": {"class_path": "SubA", "init_args": {"q": "o"}}}, {"m": {"init_args": {"q": "only"}}},
          {"m": {"class_path": "Unrelated"}}, {"sa": {"x": 3}}, {"sa": {"x": 3}, "sb": {"y": None}}, {"subcommand": "sb"}, {"subcommand": "zz"}, {"b": 1}, {"od": {"k": 1}}, {"od": None}, {"cfg": "x"}]
 STR_A = ["m:\n  init_args:\n    q: only\n", "m:\n  init_args:\n    r: [2.5]\n", "m:\n  init_args:\n    need: n\n", "l+: 3", "od:\n  j: 4\n", "a: 7", "a: [}", "{}", "", "sb:\n  y: SubA\n", "m: SubB", "l: [1, 2]", "zz: 1", "sa:\n  x: 5\n  lx: [q]\n", "subcommand: sa", "a: null"]
 ENV_A = [{}, {"APP_A": "9"}, {"APP_A": "q"}, {"APP_L": "[3]"}, {"APP_M": "SubB"}, {"APP_SUBCOMMAND": "sa", "APP_SA__X": "4"}, {"APP_SUBCOMMAND": "zz"}, {"APP_CFG": "{\"a\": 8}"}, {"APP_CFG": "[}"}]
-ARGV_B = [[], ["--a=v"], ["--h.init_args.inner=SubA"], ["--m=SubB"], ["--zz"], ["--print_config"], ["--help"], ["--h.help"], ["--cfg={\"a\": \"c\"}"], ["--m.q=1"]]
+ARGV_C = [["--c.d.a=5"], ["--c.d={\"b\": \"z\"}"], ["--c.d.b=w", "--c.k=2"], ["--c.d=null"], ["--c.d.a=x"],
+          [], ["--help"], ["--tags+=d"], ["--tags=[x]"], ["--n=1"], ["--m.init_args.r=[1.5]"], ["--m=SubA"], ["--zz"], ["--print_config"], ["--cfg={\"tags+\": [\"e\"]}"]]
+OBJ_C = [{}, {"m": {"init_args": {"r": [2.5]}}}, {"m": {"init_args": {"q": "only"}}}, {"tags+": ["z"]}, {"n": None}, {"zz": 1}]
+ARGV_B = [["--cb.help", "SubA"], ["--cb.help", FX + "SubB"], ["--m.help", "SubA"], ["--cb=SubA"],
+          [], ["--a=v"], ["--h.init_args.inner=SubA"], ["--m=SubB"], ["--zz"], ["--print_config"], ["--help"], ["--h.help"], ["--cfg={\"a\": \"c\"}"], ["--m.q=1"]]
 
 
 @G._memo
@@ -106,6 +149,9 @@ def op_strategy():
         st.lists(st.sampled_from(ARGV_B), max_size=2).map(lambda xs: ["B", "parse_args", [t for x in xs for t in x]]),
         st.lists(st.sampled_from(ARGV_B), max_size=2).map(lambda xs: ["B", "instantiate", [t for x in xs for t in x]]),
         st.just(["B", "get_defaults", None]),
+        st.sampled_from(ARGV_C).map(lambda x: ["C", "parse_args", x]), st.sampled_from(ARGV_C).map(lambda x: ["C", "parse_args", x]), st.just(["C", "get_defaults", None]),
+        st.sampled_from(OBJ_C).map(lambda x: ["C", "parse_object", x]), st.sampled_from(OBJ_C).map(lambda x: ["C", "parse_object_nodefaults", x]),
+        st.sampled_from(ARGV_C).map(lambda x: ["C", "dump", x]),
     ]
     return st.one_of(*ops)
 
@@ -124,7 +170,7 @@ def canon(v):
         return {"$obj": type(v).__name__, "state": {k: canon(x) for k, x in vars(v).items()}}
     if v is None or isinstance(v, (bool, int, float, str)):
         return [type(v).__name__, v] if not isinstance(v, str) else v
-    return f"<{type(v).__name__} {v!r}>"
+    return _noaddr(f"<{type(v).__name__} {v!r}>")
 
 
 def execute(p, op):
@@ -142,6 +188,8 @@ def execute(p, op):
                 r = p.parse_args(arg)
             elif kind == "parse_object":
                 r = p.parse_object(arg)
+            elif kind == "parse_object_nodefaults":
+                r = p.parse_object(arg, defaults=False)
             elif kind == "parse_string":
                 r = p.parse_string(arg)
             elif kind == "parse_env":
@@ -197,10 +245,10 @@ class Session:
 
     def __init__(self, ctx):
         self.ctx = ctx
-        self.reused = {"A": build("A"), "B": build("B")}
+        self.reused = {"A": build("A"), "B": build("B"), "C": build("C")}
         self.hist = []
         self.flags = set()
-        self.last = {"A": None, "B": None}
+        self.last = {"A": None, "B": None, "C": None}
 
     def step(self, op):
         self.hist.append(op)
